@@ -386,6 +386,24 @@ fn child(args: &Args, rep: &mut Report) {
             }
         }
     }
+    // closed nests below the recursion limit, with and without a trailing comma / blanks after every
+    // value: valid input whose handling must stay linear in the depth (a parser that retries an array
+    // after a failed fast path doubles its work per level)
+    for (open, close, per) in [("[", "]", 1usize), ("[", ",]", 1), ("[ ", " , ]", 1), ("[\n", ",\n]", 1), ("{a=", "}", 1), ("[{a=", "},]", 2), ("[[", ",],]", 2)] {
+        for n in [1usize, 2, 3, 5, 8, 12, 16, 20, 24, 28, 32, 40, 50, 60, 70, 78] {
+            if n * per > 78 {
+                continue;
+            }
+            let b = format!("a = {}1{}\n", open.repeat(n), close.repeat(n)).into_bytes();
+            rep.stats.class("extreme.closed-nest");
+            if let Err(f) = run_one(&b, &mut rep.stats) {
+                if f.sub == "slow" {
+                    fault(&format!("inconclusive: {}", f.msg));
+                }
+                rep.violation("extreme", None, &f);
+            }
+        }
+    }
     let run = run_tape("C04.inputs", &prop, 1500, args.tier.pick(800_000, 20_000_000), args.seed, workers());
     if let Some((_, f)) = &run.failure {
         if f.sub == "slow" {
